@@ -421,6 +421,10 @@ func (s *streamGRPC) RecvMsg(m interface{}) error {
 	}
 	b = b[:size]
 	if _, err := io.ReadFull(s.r, b); err != nil {
+		if err == io.EOF {
+			// The stream ended after the frame header.
+			err = io.ErrUnexpectedEOF
+		}
 		return err
 	}
 
